@@ -63,13 +63,12 @@ var (
 )
 
 func GetFenceHandler() *tccFenceWrapperHandler {
-	if fenceHandler == nil {
-		fenceOnce.Do(func() {
-			fenceHandler = &tccFenceWrapperHandler{
-				tccFenceDao: dao.GetTccFenceStoreDatabaseMapper(),
-			}
-		})
-	}
+	// (no unsynchronised nil check in front of the Once: that read races with the initialisation)
+	fenceOnce.Do(func() {
+		fenceHandler = &tccFenceWrapperHandler{
+			tccFenceDao: dao.GetTccFenceStoreDatabaseMapper(),
+		}
+	})
 	return fenceHandler
 }
 
